@@ -1,29 +1,37 @@
 (* Model of one HTTP/3 request stream as http3_codec.rs keeps it: two directions that are shut down
-   independently, and what the events of the client do to them. [keeps] =
-   H3_REQUEST_END_KEEPS_RESPONSE_DIRECTION: the end of the client's request stream (FIN) shuts the read
-   side only; otherwise (as found) it shut both. *)
+   independently, an entry in the codec's stream table through which a waiting sink is woken, and what
+   the events of the client do to them.
+   [keeps]  = H3_REQUEST_END_KEEPS_RESPONSE_DIRECTION: the end of the client's request stream (FIN) shuts
+              the read side only; otherwise (as found) it shut both.
+   [forget_both] = (part of) H3_SINK_WRITE_AS_MODELLED: the table entry is dropped when both directions
+              are shut; otherwise (the seeded slip) as soon as either is. *)
 From Coq Require Import List NArith Bool.
 Import ListNotations.
 
 Inductive h3ev :=
 | ClientFin                 (* the client finished its request stream: the normal end of a request *)
 | ClientReset               (* the client abandoned the stream *)
-| Respond (chunk : N).      (* the endpoint writes a piece of the response (head or body) *)
+| Respond (chunk : N).      (* the endpoint writes a piece of the response (head or body); it may have to wait for credit *)
 
-Record h3s := { rd_open : bool; wr_open : bool; delivered : list N; lost : list N }.
-Definition h3_0 : h3s := {| rd_open := true; wr_open := true; delivered := []; lost := [] |}.
+Record h3s := { rd_open : bool; wr_open : bool; known : bool; delivered : list N; lost : list N }.
+Definition h3_0 : h3s := {| rd_open := true; wr_open := true; known := true; delivered := []; lost := [] |}.
 
-Definition h3step (keeps : bool) (s : h3s) (e : h3ev) : h3s :=
+Definition still_known (forget_both rd wr : bool) : bool := if forget_both then rd || wr else rd && wr.
+
+Definition h3step (keeps forget_both : bool) (s : h3s) (e : h3ev) : h3s :=
   match e with
-  | ClientFin => {| rd_open := false; wr_open := if keeps then wr_open s else false;
-                    delivered := delivered s; lost := lost s |}
-  | ClientReset => {| rd_open := false; wr_open := false; delivered := delivered s; lost := lost s |}
-  | Respond c => if wr_open s
-                 then {| rd_open := rd_open s; wr_open := true; delivered := delivered s ++ [c]; lost := lost s |}
-                 else {| rd_open := rd_open s; wr_open := false; delivered := delivered s; lost := lost s ++ [c] |}
+  | ClientFin =>
+    let wr := if keeps then wr_open s else false in
+    {| rd_open := false; wr_open := wr; known := known s && still_known forget_both false wr;
+       delivered := delivered s; lost := lost s |}
+  | ClientReset => {| rd_open := false; wr_open := false; known := false; delivered := delivered s; lost := lost s |}
+  | Respond c =>
+    if wr_open s && known s
+    then {| rd_open := rd_open s; wr_open := true; known := true; delivered := delivered s ++ [c]; lost := lost s |}
+    else {| rd_open := rd_open s; wr_open := wr_open s; known := known s; delivered := delivered s; lost := lost s ++ [c] |}
   end.
 
-Definition h3run (keeps : bool) (evs : list h3ev) : h3s := fold_left (h3step keeps) evs h3_0.
+Definition h3run (keeps forget_both : bool) (evs : list h3ev) : h3s := fold_left (h3step keeps forget_both) evs h3_0.
 
 Fixpoint responses (evs : list h3ev) : list N :=
   match evs with
@@ -31,6 +39,3 @@ Fixpoint responses (evs : list h3ev) : list N :=
   | Respond c :: r => c :: responses r
   | _ :: r => responses r
   end.
-
-Definition no_reset (evs : list h3ev) : Prop := ~ In ClientReset evs.
-
